@@ -11,6 +11,17 @@ YearOf(day) ==
       mp  == (5 * doy + 2) \div 153
       m   == IF mp < 10 THEN mp + 3 ELSE mp - 9
   IN  yoe + era * 400 + (IF m <= 2 THEN 1 ELSE 0)
+\* days-from-civil for January 1 of year y
+FirstDayOfYear(y) ==
+  LET yy  == y - 1                      \* January belongs to the previous "March-based" year
+      era == yy \div 400
+      yoe == yy - era * 400
+      doy == 306                        \* day of year of Jan 1 counted from March 1
+      doe == yoe * 365 + yoe \div 4 - yoe \div 100 + doy
+  IN  era * 146097 + doe - 719468
+LastDayOfYear(y) == FirstDayOfYear(y + 1) - 1
+ASSUME FirstDayOfYear(1970) = 0 /\ FirstDayOfYear(2000) = 10957 /\ FirstDayOfYear(2017) = 17167 /\ LastDayOfYear(2016) = 17166
+ASSUME \A y \in 1990..2040 : YearOf(FirstDayOfYear(y)) = y /\ YearOf(FirstDayOfYear(y) - 1) = y - 1
 \* sanity anchors
 ASSUME YearOf(0) = 1970 /\ YearOf(364) = 1970 /\ YearOf(365) = 1971
 ASSUME YearOf(18262) = 2020 /\ YearOf(18261) = 2019 /\ YearOf(18627) = 2020 /\ YearOf(18628) = 2021
